@@ -129,6 +129,8 @@ func runC03(p *core.Program, r *core.Report) {
 	c03EmptyBlob(p, r, "C03.empty-blob", "lang/pack")
 	r.Rule("C03.in-place", "decoders store what they read into the container itself (no decode into a range copy, no append after a full-length make)", 60)
 	decodeInPlace(p, x, r, "C03.in-place", []string{"lang/pack"})
+	r.Rule("C03.order", "record containers carry the inner packs in the order given: no function taking or returning a list of packs hands it to a sorting, shuffling or reversing routine", 1)
+	keepOrderRule(p, r, "C03.order", []string{"lang/pack"}, "Pack")
 	checkRegistry(p, r, "C03.registry", "lang/pack", "CreatePack", "Pack", "GetPackType")
 
 	pairs, unpaired := discoverPairs(p, x, []string{"lang/pack"})
